@@ -144,3 +144,20 @@ fn elect3_mirror_agreement() {
     assert!(has(&mine, 3) == has(&theirs, 6));
     kani::cover!(has(&mine, 3));
 }
+
+/// N = 3: dialled connections that cannot be told apart by nonce are never separated by an election on the dialling side, whatever
+/// else takes part (accepted connections, other nonces): either all of them stay or none does
+#[kani::proof]
+#[kani::unwind(5)]
+fn elect3_dialled_ties_are_never_broken() {
+    let sel: u8 = kani::any();
+    let (me, peer) = names(sel);
+    let a = cand(1);
+    let b = cand(2);
+    let c = cand(3);
+    let r = elect_sessions(me, peer, vec![a, b, c]);
+    if !a.is_server && !b.is_server && a.connection_id == b.connection_id { assert!(has(&r, 1) == has(&r, 2)); }
+    if !a.is_server && !c.is_server && a.connection_id == c.connection_id { assert!(has(&r, 1) == has(&r, 3)); }
+    if !b.is_server && !c.is_server && b.connection_id == c.connection_id { assert!(has(&r, 2) == has(&r, 3)); }
+    kani::cover!(!a.is_server && !b.is_server && a.connection_id == b.connection_id && c.is_server && has(&r, 1));
+}
